@@ -515,6 +515,70 @@ fn after_a_caught_panic(out: &mut JobOut) {
     }
 }
 
+/// After a long history of in-range queries on a strongly uneven axis (every lookup misses the
+/// even-spacing guess; 70000 queries, one by one and in batches) the extrapolated answers are still
+/// those of a fresh interpolator.
+fn after_a_long_history(out: &mut JobOut) {
+    use ndarray::{Array1, Array2};
+    use ndarray_interp::interp1d::cubic_spline::CubicSpline;
+    use ndarray_interp::interp1d::{Interp1DBuilder, Linear};
+    use ndarray_interp::interp2d::{Bilinear, Interp2DBuilder};
+    let x: Vec<f64> = (0..12).map(|i| 1.5f64.powi(i) - 3.0).collect();
+    let n = x.len();
+    let xa = Array1::from(x.clone());
+    let d = Array2::from_shape_fn((n, 2), |(i, j)| ((i * 3 + j * 5) as f64 * 0.37).sin() + 0.25 * i as f64);
+    // (segments 3..6 only: there the position computed from the end points is always wrong, so not a
+    // single lookup of the history is a "hit")
+    let inside = |k: usize| -> f64 { let i = 3 + k % 4; x[i] + (0.1 + 0.8 * ((k * 7) % 10) as f64 / 10.0) * (x[i + 1] - x[i]) };
+    let probes = [x[0] - 0.001, x[0] - 1.0, x[0] - 1e6, x[n - 1] + 0.001, x[n - 1] + 50.0, x[n - 1] + 1e9, x[0], x[n - 1], inside(3), inside(10)];
+    macro_rules! one_d {
+        ($name:expr, $mk:expr) => {{
+            let fresh = $mk;
+            let used = $mk;
+            out.states += 2;
+            for k in 0..35_000usize {
+                let _ = used.interp(inside(k));
+            }
+            let batch: Array1<f64> = (0..35_000usize).map(inside).collect();
+            let _ = used.interp_array(&batch);
+            out.transitions += 70_000;
+            for &q in &probes {
+                let (a, b) = (catch(|| used.interp(q)), catch(|| fresh.interp(q)));
+                out.evals += 1;
+                out.nontrivial += 1;
+                let same = matches!((&a, &b), (Ok(Ok(u)), Ok(Ok(v))) if u.iter().zip(v.iter()).all(|(s, t)| s.to_bits() == t.to_bits()));
+                out.outcome(if same { "long-history:same" } else { "long-history:differs" });
+                if !same {
+                    out.violate(format!("long-history:{}:{q}", $name), format!("{}: after 70000 in-range queries q = {q} is answered with {:?}, by a fresh interpolator with {:?}", $name, a.map(|r| r.map(|v| v.to_vec())), b.map(|r| r.map(|v| v.to_vec()))), Json::str($name));
+                }
+            }
+        }};
+    }
+    one_d!("Linear+extrapolate", Interp1DBuilder::new(d.clone()).x(xa.clone()).strategy(Linear::new().extrapolate(true)).build().unwrap());
+    one_d!("CubicSpline+extrapolate", Interp1DBuilder::new(d.clone()).x(xa.clone()).strategy(CubicSpline::new().extrapolate(true)).build().unwrap());
+    {
+        let z = Array2::from_shape_fn((n, n), |(i, j)| ((i * n + j) as f64 * 0.37).sin() * 3.0);
+        let mk = || Interp2DBuilder::new(z.clone()).x(xa.clone()).y(xa.clone()).strategy(Bilinear::new().extrapolate(true)).build().unwrap();
+        let (fresh, used) = (mk(), mk());
+        for k in 0..35_000usize {
+            let _ = used.interp_scalar(inside(k), inside(k + 5));
+        }
+        let (bx, by): (Array1<f64>, Array1<f64>) = ((0..35_000usize).map(inside).collect(), (0..35_000usize).map(|k| inside(k + 3)).collect());
+        let _ = used.interp_array(&bx, &by);
+        for &qx in &probes {
+            for &qy in &probes[..4] {
+                let (a, b) = (catch(|| used.interp_scalar(qx, qy)), catch(|| fresh.interp_scalar(qx, qy)));
+                out.evals += 1;
+                out.nontrivial += 1;
+                let same = matches!((&a, &b), (Ok(Ok(u)), Ok(Ok(v))) if u.to_bits() == v.to_bits());
+                if !same {
+                    out.violate(format!("long-history:Bilinear:{qx},{qy}"), format!("Bilinear+extrapolate: after 70000 in-range queries ({qx}, {qy}) is answered with {a:?}, by a fresh interpolator with {b:?}"), Json::Null);
+                }
+            }
+        }
+    }
+}
+
 fn body(ctx: &Ctx) -> (Summary, Meta) {
     let quick = ctx.quick();
     let mut jobs = vec![];
@@ -589,11 +653,12 @@ fn body(ctx: &Ctx) -> (Summary, Meta) {
         let mut out = JobOut::default();
         nimc::subj::check_spline_option_histories(4, &|_b, e| e, &mut out);
         after_a_caught_panic(&mut out);
+        after_a_long_history(&mut out);
         out.sample = Some(Json::str("[Boundary(3), Extrapolate(true), Boundary(1)] vs [Extrapolate(true), Boundary(1)]"));
         out
     }));
     let meta = Meta {
-        rule: "for every (axis, strategy) pair build the extrapolating interpolator and its non-extrapolating twin: (i) every finite outside query {1,2 ulp, 2^-10 P, P/4, P, 3P, 100P on both sides, +-MAX} is answered through 6 call forms incl. 2-d and dynamic query arrays and *_into; (ii) in-range results are bit-identical to the twin; (iii) outside values equal the exact continuation of the end chord / the certified exact end cubic / the border cell's bilinear form (2-D: outside in x, in y, in both). Non-trivial = an outside query compared with the exact continuation. After a caught panic (NaN query, NaN inside a batch, wrongly shaped buffer) every extrapolating interpolator still answers every finite query with the same bits. Phase builder-option-histories: every sequence of up to 4 CubicSpline option calls over {boundary(NotAKnot), boundary(Natural), boundary(Periodic), extrapolate(true), extrapolate(false)} that denotes an extrapolating configuration answers 18 queries (in range, just outside, far outside) bit-identically to the canonical two-call history of that configuration.".into(),
+        rule: "for every (axis, strategy) pair build the extrapolating interpolator and its non-extrapolating twin: (i) every finite outside query {1,2 ulp, 2^-10 P, P/4, P, 3P, 100P on both sides, +-MAX} is answered through 6 call forms incl. 2-d and dynamic query arrays and *_into; (ii) in-range results are bit-identical to the twin; (iii) outside values equal the exact continuation of the end chord / the certified exact end cubic / the border cell's bilinear form (2-D: outside in x, in y, in both). Non-trivial = an outside query compared with the exact continuation. After 70000 in-range queries on a geometric axis (single and batched) the extrapolated answers equal those of a fresh interpolator. After a caught panic (NaN query, NaN inside a batch, wrongly shaped buffer) every extrapolating interpolator still answers every finite query with the same bits. Phase builder-option-histories: every sequence of up to 4 CubicSpline option calls over {boundary(NotAKnot), boundary(Natural), boundary(Periodic), extrapolate(true), extrapolate(false)} that denotes an extrapolating configuration answers 18 queries (in range, just outside, far outside) bit-identically to the canonical two-call history of that configuration.".into(),
         bounds: format!("{njobs} (type, axis/grid, strategy) jobs; Linear on value-set subsets + words + long words; CubicSpline on word axes n<=7 x 32 non-periodic boundary configurations; Bilinear on all ordered pairs of the 2-D axis set; tier {}", ctx.tier.name()),
         assumptions: vec!["tolerances: Linear 8 eps max(|y1|,|y2|,|t||y2-y1|); spline 16 K eps scale max(1,|t|)^3 (see C16); bilinear 24 eps max|z| (1+|tx|)(1+|ty|)".into()],
         extra: vec![],
